@@ -169,6 +169,8 @@ class Interp:
         self.loop_ord_cache = {}
         self.prim = None
         self._feas_cache = {}
+        self.axioms = []          # quantified lemma axioms (definitions of spec-level sequence functions)
+        self.axiom_keys = set()
 
     # ------------------------------------------------------------------ modules
     def module(self, name):
@@ -385,7 +387,9 @@ class Interp:
             return self._feas_cache[key]
         s = z3.Solver()
         s.set('timeout', self.prune_timeout_ms)
-        s.add(*pc)
+        # quantified lemma axioms only slow a satisfiability check down; dropping them weakens
+        # the query, which is sound for pruning (unsat of a subset => unsat of the whole)
+        s.add(*[f for f in pc if not z3.is_quantifier(f)])
         self.stats['prune_calls'] += 1
         r = s.check()
         if r == z3.unknown:
@@ -1340,6 +1344,9 @@ class Interp:
             raise EngineLimit('class attribute %s.%s' % (base.qual, attr))
         if isinstance(base, Ref):
             o = st.heap[base.addr]
+            if isinstance(o, HObj) and o.cls.startswith('opaque:'):
+                yield st, SFunc('opaque', o.cls[7:] + '.' + attr, selfv=base)
+                return
             if isinstance(o, HObj):
                 if attr in o.fields:
                     v = o.fields[attr]
